@@ -6,8 +6,8 @@
    Model/Once.v (syncutil.Once), tied to the Go code by the correspondence run. *)
 From Coq Require Import Sorting.Sorted Sorting.Permutation.
 From Oras Require Import Base.Prelude Generated.GC16
-  Model.Scopes Model.Challenge Model.AuthClient Model.Once Model.CacheSet
-  Proofs.Scopes Proofs.ScopesIdem Proofs.AuthClient Proofs.AuthHistory Proofs.Once Proofs.CacheSet.
+  Model.Scopes Model.Challenge Model.AuthClient Model.Once Model.CacheSet Model.OnceSlot Model.AuthConc Model.Redirect
+  Proofs.Scopes Proofs.ScopesIdem Proofs.AuthClient Proofs.AuthHistory Proofs.Once Proofs.CacheSet Proofs.OnceSlot Proofs.AuthConc Proofs.Redirect Proofs.AuthOrder.
 
 (* ================= scope sets: the canonical cache key ================= *)
 
@@ -128,7 +128,7 @@ Example C16_history_example :
   let ch0 := b "Bearer realm=""https://auth.example/token"",service=""svc0"",scope=""repository:a:pull""" in
   let ch1 := b "Basic realm=""r""" in
   map (fun o => (map fst (fst o), snd o))
-    (run_model FShared false creds []
+    (run_model FShared false creds [] []
        [ (mkReq 0 [] [] BNone, [A401 ch0; ATok 7; AOk]);
          (mkReq 1 [] [] BNone, [A401 ch1; AOk]);
          (mkReq 0 [] [b "repository:a:pull"] BNone, [AOk]);
@@ -160,8 +160,8 @@ Theorem C16_valid_credentials_succeed :
   forall parse clean cf c rq script,
     let '(evs, c', r) := do_request clean parse cf c rq script in
     r <> RBad ->
-    rq_body rq <> BOnce ->
-    r <> RErr ENoCred -> r <> RErr EMissing ->
+    rewind_ok (rq_body rq) = true ->
+    r <> RErr ENoCred -> r <> RErr EMissing -> r <> RErr ECred ->
     (forall s, ~ In (s, AFail) evs) ->
     (forall s, ~ In (s, AErr) evs) ->
     (forall h a hdr, ~ In (SReg h a true, A401 hdr) evs) ->
@@ -357,7 +357,7 @@ Example C16_failed_send_example :
   let creds := [(0, mkCred true true false false)] in
   let ch0 := b "Bearer realm=""https://auth.example/token"",service=""svc0"",scope=""repository:a:pull""" in
   map (fun o => (map fst (fst o), snd o))
-    (run_model FShared false creds []
+    (run_model FShared false creds [] []
        [ (mkReq 0 [] [] BNone, [A401 ch0; AErr; AOk]);          (* the token request is cancelled *)
          (mkReq 0 [] [] BNone, [A401 ch0; ATok 9; AOk]) ])      (* nothing was cached: full flow again *)
   = [ ([SReg 0 NoAuth false;
@@ -367,3 +367,190 @@ Example C16_failed_send_example :
         SDist 0 (b "https://auth.example/token") (b "svc0") [b "repository:a:pull"] (Some (SUserPass 0));
         SReg 0 (ABearer (SIssued 0 9)) true], RResp false) ].
 Proof. vm_compute. reflexivity. Qed.
+
+(* ================= Once: the run slot is never lost ================= *)
+
+(* The per-caller program is the list of control paths the translator extracts from
+   once.go (Generated.GC16: once_paths_taken, once_paths_closed); by computation every path that holds
+   the slot hands it back or publishes before it leaves Do. *)
+Theorem C16_once_paths_release :
+  forallb releases paths_taken = true /\ forallb untouched paths_closed = true /\
+  negb (Nat.eqb (length paths_taken) 0) = true /\ negb (Nat.eqb (length paths_closed) 0) = true.
+Proof. exact generated_paths_ok. Qed.
+Print Assumptions C16_once_paths_release.
+
+(* For every interleaving of any number of Do calls (callers whose context is
+   already cancelled, or is cancelled while they wait, included): a taken slot is
+   owned by a caller that is inside Do on a path that releases it; at every
+   quiescent point the slot is free or a result is published; and the owner's own
+   steps alone release it (nobody can be made to wait forever by a caller that
+   has left). *)
+Theorem C16_once_slot_never_lost :
+  (forall tr st g, once_run sinit tr = Some st -> s_slot st = STaken g ->
+     exists rest, pc_get (s_pcs st) g = PIn rest /\ releases rest = true) /\
+  (forall tr st, once_run sinit tr = Some st ->
+     (forall g rest, pc_get (s_pcs st) g <> PIn rest) ->
+     s_slot st = SFree \/ s_slot st = SClosed) /\
+  (forall tr st g, once_run sinit tr = Some st -> s_slot st = STaken g ->
+     exists n st', once_run st (repeat (SAct g) n) = Some st' /\
+       (s_slot st' = SFree \/ s_slot st' = SClosed)).
+Proof.
+  exact (conj (slot_owned paths_taken paths_closed generated_taken_release)
+        (conj (quiescent_slot_free paths_taken paths_closed generated_taken_release)
+              (never_wedged paths_taken paths_closed generated_taken_release))).
+Qed.
+Print Assumptions C16_once_slot_never_lost.
+
+(* the statement is about the program, not the machine: with one more return path
+   that keeps the slot (a context check after the receive) the slot is lost *)
+Theorem C16_once_leaky_program_refuted :
+  let taken := [ARet] :: paths_taken in
+  exists tr st, srun taken paths_closed sinit tr = Some st /\
+    (forall g rest, pc_get (s_pcs st) g <> PIn rest) /\ s_slot st = STaken 1.
+Proof. exact leaky_program_wedges. Qed.
+Print Assumptions C16_once_leaky_program_refuted.
+
+Example C16_once_slot_example :
+  once_slot_final [SEnter 1; SEnter 2; SCtxDone 2; STake 1 0; SAct 1; SEnter 3; SAct 1; SAct 1;
+                   STake 3 1; SAct 3; SAct 3; SAct 3; SAct 3; SEnter 4; SReadClosed 4 0; SAct 4] = Some SClosed
+  /\ once_slot_final [SEnter 1; STake 1 0; SEnter 2; STake 2 0] = None.
+Proof. vm_compute. auto. Qed.
+
+(* ================= Client.Do under concurrency ================= *)
+
+(* one call, whatever the cache tells it (its three reads are oracles that answer
+   like SOME host-tainted cache): it sends only what it may, and what it writes
+   into the cache is a token of its own host *)
+Theorem C16_call_guarantee :
+  forall parse clean cf rq osch otok1 otok2 script,
+    (forall t, otok1 = Some t -> match osch with Some s => tok_fits (rq_host rq) s t | None => True end) ->
+    (forall k t, otok2 k = Some t -> tok_fits (rq_host rq) SchBearer t) ->
+    let '(evs, op, r) := do_request_rd clean parse cf rq osch otok1 otok2 script in
+    trace_ok_from parse (rq_host rq) [] evs /\ op_fits (rq_host rq) op.
+Proof. exact do_request_rd_ok. Qed.
+Print Assumptions C16_call_guarantee.
+
+(* the sequential model is the special case: all reads see one cache and the write
+   is applied at once *)
+Theorem C16_sequential_is_special_case :
+  forall parse clean cf c rq script,
+    do_request clean parse cf c rq script =
+    let osch := rd_scheme (cf_flavour cf) c rq in
+    let '(evs, op, r) :=
+      do_request_rd clean parse cf rq osch (rd_tok1 clean (cf_flavour cf) c rq osch)
+                    (rd_tok2 (cf_flavour cf) c rq) script in
+    (evs, apply_op (cf_flavour cf) c (rq_host rq) op, r).
+Proof. exact do_request_rd_eq. Qed.
+Print Assumptions C16_sequential_is_special_case.
+
+(* any number of concurrent calls over one shared cache, every interleaving of
+   their cache reads (each sees the cache of its own moment) and of their
+   completions: every call's sends are [trace_ok] for the host it addressed, and
+   the cache stays host-tainted *)
+Theorem C16_concurrent_no_cross_host :
+  forall parse clean cf tr y,
+    yrun clean parse cf yinit tr = Some y ->
+    (forall j h evs r, In (j, (h, evs, r)) (y_out y) -> trace_ok parse h evs) /\
+    (forall h s k t, cc_get_token (y_cache y) h s k = Some t -> taint t = h).
+Proof. exact concurrent_no_cross_host. Qed.
+Print Assumptions C16_concurrent_no_cross_host.
+
+Example C16_concurrent_example :
+  let cf := mkConfig FShared false (lookup_cred [(0, mkCred true true false false); (1, mkCred true true false false)]) (err_hosts []) in
+  let ch := b "Bearer realm=""https://auth.example/token"",service=""s"",scope=""repository:a:pull""" in
+  match yrun clean_scopes parse_total cf yinit
+          [YStart 1 (mkReq 0 [] [] BNone) [A401 ch; ATok 5; AOk];
+           YStart 2 (mkReq 0 [] [] BNone) [A401 ch; AOk];   (* finds call 1's token at its second look *)
+           YStart 3 (mkReq 1 [] [] BNone) [AOk];
+           YLook 1 1; YLook 2 1; YLook 2 2; YFinish 1; YLook 2 3; YFinish 2; YFinish 3] with
+  | Some y => map (fun o => (fst o, snd (snd o))) (y_out y) = [(3, RResp false); (2, RResp false); (1, RResp false)]
+              /\ cc_get_token (y_cache y) 0 SchBearer (b "repository:a:pull") = Some (SIssued 0 5)
+  | None => False
+  end.
+Proof. vm_compute. auto. Qed.
+
+(* ================= every call of every history ================= *)
+Theorem C16_history_budget_and_reuse :
+  forall parse clean cf hist c,
+    Forall2 (fun rs out => exists c0,
+               (reg_sends (fst out) <= 3)%nat /\ (fetches (fst out) <= 1)%nat /\
+               outcome_ok parse cf (fst rs) (fst out) (snd out) /\
+               stops_after_failure (fst out) /\
+               Forall (cached_send_ok clean (cf_flavour cf) c0 (fst rs)) (fst out))
+            hist (fst (run_history clean parse cf c hist)).
+Proof. exact history_budget_and_reuse. Qed.
+Print Assumptions C16_history_budget_and_reuse.
+
+(* ================= known findings: net/http's redirect policy ================= *)
+
+(* redirect-other-port-keeps-authorization, as a statement about the policy model
+   (Model/Redirect.v, compared with net/http on every followed redirect): hosts that
+   the auth client keeps apart are one host for the policy *)
+Theorem C16_redirect_other_port_refuted :
+  let a := b "reg0.test" in let c := b "reg0.test:443" in
+  a <> c /\ keeps_authorization a c = true /\ keeps_authorization c a = true /\
+  keeps_authorization a (b "reg1.test:5000") = false /\ keeps_authorization a (b "blobs.reg0.test") = true.
+Proof. exact other_port_keeps_authorization. Qed.
+Print Assumptions C16_redirect_other_port_refuted.
+
+(* redirect-token-request-resent: 307/308 keep the body of the token POST *)
+Theorem C16_redirect_token_post_refuted :
+  keeps_body 307 = true /\ keeps_body 308 = true /\ keeps_body 302 = false /\ keeps_body 303 = false.
+Proof. exact token_post_resent. Qed.
+Print Assumptions C16_redirect_token_post_refuted.
+
+(* budget, outcome classification and "nothing after a failed send" for a call in ANY
+   concurrent execution: they do not depend on what the cache answers *)
+Theorem C16_concurrent_budget :
+  forall parse clean cf rq osch otok1 otok2 script,
+    let '(evs, op, r) := do_request_rd clean parse cf rq osch otok1 otok2 script in
+    (reg_sends evs <= 3)%nat /\ (fetches evs <= 1)%nat /\ outcome_ok parse cf rq evs r /\ stops_after_failure evs.
+Proof. exact do_request_rd_budget. Qed.
+Print Assumptions C16_concurrent_budget.
+
+(* ================= order of effects in the source ================= *)
+
+(* the order of the observable effects (in-flight map, Once, cache operations, sends) inside
+   concurrentCache.Set / store, the single-context cache's Set and Client.Do, re-read from
+   the Go source on every run, is the order the models assume *)
+Theorem C16_source_call_order :
+  (all_after (b "fetchOnce.Do") (b "cc.status.LoadOrStore") calls_cc_set = true /\
+   all_after (b "fetch") (b "fetchOnce.Do") calls_cc_set = true /\
+   all_after (b "cc.status.Delete") (b "fetchOnce.Do") calls_cc_set = true) /\
+  (all_after (b "entry.tokens.Store") (b "cc.cache.LoadOrStore") calls_cc_store = true /\
+   none_after (b "entry.tokens.Store") (b "cc.cache.Store") calls_cc_store = true) /\
+  (all_after (b "fc.secondary.Set") (b "fc.primary.Set") calls_fallback_set = true /\
+   none_after (b "fc.secondary.Set") (b "fc.primary.Set") calls_fallback_set = true /\
+   all_after (b "cc.store") (b "fetch") calls_host_set = true) /\
+  (all_after (b "cache.GetToken") (b "cache.GetScheme") calls_do = true /\
+   all_after (b "cache.Set") (b "cache.GetToken") calls_do = true /\
+   eventually (b "cache.Set") (b "rewindRequestBody") calls_do = true /\
+   next_is (b "rewindRequestBody") (b "c.send") calls_do = true).
+Proof. exact (conj cc_set_order (conj cc_store_order (conj fallback_set_order do_order))). Qed.
+Print Assumptions C16_source_call_order.
+
+(* valid credentials => the registry's non-401 answer, for a call in any concurrent execution *)
+Theorem C16_concurrent_valid_credentials_succeed :
+  forall parse clean cf rq osch otok1 otok2 script,
+    let '(evs, op, r) := do_request_rd clean parse cf rq osch otok1 otok2 script in
+    r <> RBad ->
+    rewind_ok (rq_body rq) = true ->
+    r <> RErr ENoCred -> r <> RErr EMissing -> r <> RErr ECred ->
+    (forall s, ~ In (s, AFail) evs) ->
+    (forall s, ~ In (s, AErr) evs) ->
+    (forall h a hdr, ~ In (SReg h a true, A401 hdr) evs) ->
+    (forall s hdr ps, In (s, A401 hdr) evs -> parse hdr <> (SchUnknown, ps)) ->
+    r = RResp false /\ exists h a fresh, last evs no_event = (SReg h a fresh, AOk).
+Proof. exact valid_credentials_succeed_rd. Qed.
+Print Assumptions C16_concurrent_valid_credentials_succeed.
+
+(* the state between the two map operations of concurrentCache.store is a host-tainted
+   cache as well (discharges the atomic-write assumption of the concurrent system) *)
+Theorem C16_store_intermediate_state :
+  forall c h s, cache_ok c ->
+    cache_ok (match cc_entry c h with
+              | Some (s', t) => if scheme_eqb s s' then c else cc_put c h (s, [])
+              | None => cc_put c h (s, [])
+              end).
+Proof. exact store_intermediate_ok. Qed.
+Print Assumptions C16_store_intermediate_state.
